@@ -64,6 +64,8 @@ structure DocMach where
   k : MemKind
   st : MemState
   budget : Nat
+  /-- number of stores made so far (loads do not change the documented machine) -/
+  stores : Nat := 0
 
 def docBus : Bus DocMach where
   load s a :=
@@ -75,23 +77,34 @@ def docBus : Bus DocMach where
     if s.budget = 0 then (.error .budget, s) else
     match docMap s.k (fun c => (s.st.data c).toNat) a.toNat with
     | none => (.error .mem, s)
-    | some c => (.ok r, { s with st := { s.st with data := upd s.st.data c v }, budget := s.budget - 1 })
+    | some c => (.ok r, { s with st := { s.st with data := upd s.st.data c v }, budget := s.budget - 1, stores := s.stores + 1 })
 
 /-- the specification's own run of a program on the documented machine, up to the instruction that stops it:
     `halt` (BRK; registers after it), `illegal` (undecodable opcode; registers and memory BEFORE it, PC at the opcode),
     `fault` (an access the map does not resolve), `open` (the data sheets leave the instruction's outcome open, e.g.
-    invalid BCD) or `budget`.  Also returns the union of the P bits the specification left unconstrained on the way. -/
-def specRunStop (model : CpuModel) : Nat → Regs → DocMach → Byte → String × Regs × DocMach × Byte
-  | 0, r, m, pm => ("budget", r, m, pm)
-  | fuel + 1, r, m, pm =>
+    invalid BCD), `loop` (the run has come back to a state it was in before — same registers, no store in between, and
+    loads do not change the documented machine — so it never stops) or `budget`.  Also returns the union of the P bits
+    the specification left unconstrained on the way.
+    Loop detection (Brent): `ck` is the state (registers, number of stores) at the last checkpoint, `n` the number of
+    instructions executed, `nx` the instruction count at which the checkpoint is renewed (doubling). -/
+def specRunStopL (model : CpuModel) : Nat → Regs → DocMach → Byte → (Regs × Nat) → Nat → Nat → String × Regs × DocMach × Byte
+  | 0, r, m, pm, _, _, _ => ("budget", r, m, pm)
+  | fuel + 1, r, m, pm, ck, n, nx =>
     match (Spec.step model r).run docBus r m with
     | (.ok (some (out, r')), m') =>
-      if out.halt then ("halt", r', m', pm) else specRunStop model fuel r' m' (pm ||| out.pmask)
+      if out.halt then ("halt", r', m', pm)
+      else if r' == ck.1 && m'.stores == ck.2 then ("loop", r', m', pm ||| out.pmask)
+      else
+        let (ck, nx) := if n + 1 == nx then ((r', m'.stores), 2 * nx) else (ck, nx)
+        specRunStopL model fuel r' m' (pm ||| out.pmask) ck (n + 1) nx
     | (.ok none, m') => ("open", r, m', pm)
     | (.error (.illegal _ _), _) => ("illegal", r, m, pm)
     | (.error .mem, m') => ("fault", r, m', pm)
     | (.error .budget, m') => ("budget", r, m', pm)
     | (.error _, m') => ("open", r, m', pm)
+
+def specRunStop (model : CpuModel) (fuel : Nat) (r : Regs) (m : DocMach) (pm : Byte) : String × Regs × DocMach × Byte :=
+  specRunStopL model fuel r m pm (r, m.stores) 0 1
 
 /-- CPU view of the documented machine without side effects (`!!` = fault), as the harness prints a final memory byte -/
 def docPeek (m : DocMach) (a : Nat) : String :=
@@ -109,7 +122,7 @@ def judgeStop (spec mode cpu : String) (org : Nat) (code : List Nat) (r : String
   let cls := s!"crash.{mode}.{kindG}"
   if kindG == "died" || kindG == "hostcrash" then s!"agree | VIOL C11:hostcrash:{kindG}:{spec}:{mode}-{cpu} | {cls}" else
   if kindG == "running" then s!"agree | VIOL C11:stop:kind=running:{mode}-{cpu}:{spec} | {cls}" else
-  if kindG != "halt" && kindG != "error" then "bad" else
+  if kindG != "halt" && kindG != "error" && kindG != "watchdog" then "bad" else
   let parsed : Option (CpuModel × MemKind) := do
     let model ← if cpu == "6502" then some CpuModel.m6502 else if cpu == "65C02" then some CpuModel.m65C02 else none
     some (model, ← docMachine spec)
@@ -123,7 +136,7 @@ def judgeStop (spec mode cpu : String) (org : Nat) (code : List Nat) (r : String
         match docMap k (fun c => (st.data c).toNat) ((org + bi.2) % 65536) with
         | some c => { st with data := upd st.data c (BitVec.ofNat 8 bi.1) }
         | none => st) (initState k)
-      let (kindS, rs, ms, pm) := specRunStop model 400 ⟨BitVec.ofNat 16 org, 0xFF, 0, 0, 0, 0⟩ ⟨k, s0, 4000⟩ 0
+      let (kindS, rs, ms, pm) := specRunStop model 400 ⟨BitVec.ofNat 16 org, 0xFF, 0, 0, 0, 0⟩ ⟨k, s0, 4000, 0⟩ 0
       let memS := String.join ((List.range code.length).map fun i => docPeek ms (org + i)) ++
         String.join ([0x1FC, 0x1FD, 0x1FE, 0x1FF].map (docPeek ms))
       let sfx := s!":{mode}-{cpu}:{spec}"
@@ -138,9 +151,20 @@ def judgeStop (spec mode cpu : String) (org : Nat) (code : List Nat) (r : String
           (if kindG != "error" then [s!"C11:stop:kind={kindG}:want=error-at-memory-fault{sfx}"] else [])
         else if kindS == "halt" then
           -- a program the data sheets run to its BRK: an error instead is an instruction that did not do what it
-          -- should (C01), not a matter of C11
-          (if kindG != "halt" then [s!"C01:stop:kind={kindG}:want=halt{sfx}"] else [])
+          -- should (C01), not a matter of C11.  A halt somewhere else than at the BRK the specification's run stops at:
+          -- at a BRK all the same (the run went another way, C01) or not at a BRK (C11, `vBrk` below).
+          (if kindG != "halt" then [s!"C01:stop:kind={kindG}:want=halt{sfx}"]
+           else if rg.pc != rs.pc && prev == "00" then [s!"C01:stop:halt-at-another-brk:PC{sfx}"] else [])
+        else if kindS == "loop" then
+          -- the specification's run never reaches a BRK (and nothing else that stops it): the machine has to run until
+          -- the harness's watchdog ends the run; a halt is a run that stopped without error and not at a BRK — wherever
+          -- the program counter was left and whatever byte happens to precede it
+          (if kindG == "halt" then [s!"C11:stop:kind=halt:want=runs-on:endless-loop-without-brk{sfx}"]
+           else if kindG != "watchdog" then [s!"C01:stop:kind={kindG}:want=runs-on{sfx}"] else [])
         else []
+      -- a run the watchdog ended although the specification's run stops by itself
+      let v := v ++ (if kindG == "watchdog" && (kindS == "halt" || kindS == "illegal" || kindS == "fault") && v.isEmpty
+                     then [s!"C01:stop:kind=watchdog:want={kindS}{sfx}"] else [])
       let v := v ++ (if v.isEmpty then vBrk else [])
       if v.isEmpty then s!"agree | specok | {cls}.{kindS}" else s!"agree | VIOL {",".intercalate v} | {cls}.{kindS}"
   | _, _ => "bad"
